@@ -266,7 +266,9 @@ def impl_parse(case):
             obs["samples"] = obs["ids"] = f"entry point called {len(calls)} times, exit {r.exit_code} ({r.exception!r})"
         else:
             obs["samples"] = _canon(calls[0]["samples"])
-            obs["ids"] = _canon(calls[0][idname])
+            ids_ = calls[0][idname]
+            # ld lists every requested ID once, in the order of first mention: repeats may already be dropped at this boundary
+            obs["ids"] = _canon(tuple(dict.fromkeys(ids_)) if name in ORDERED_IDS and ids_ is not None else ids_)
             # every other parameter reaches the entry point as parsed
             glue = {}
             for k, v in calls[0].items():
@@ -329,7 +331,7 @@ def model_obs_parse(case, resp):
         else:
             s, i = resp["samples"], resp["ids"]
             obs["samples"] = None if s is None else {"set": sorted(set(s))}
-            obs["ids"] = None if i is None else ({"seq": list(i)} if name in ORDERED_IDS else {"set": sorted(set(i))})
+            obs["ids"] = None if i is None else ({"seq": list(dict.fromkeys(i))} if name in ORDERED_IDS else {"set": sorted(set(i))})
             obs["glue"] = {}
     return obs
 
@@ -402,7 +404,7 @@ def oracle_parse(case, obs):
         ws = lines(sf) if sf is not None else smp
         wi = lines(idf) if idf is not None else (multi.get("ids") or None)
         ws = None if ws is None else {"set": sorted(set(ws))}
-        wi = None if wi is None else ({"seq": wi} if name in ORDERED_IDS else {"set": sorted(set(wi))})
+        wi = None if wi is None else ({"seq": list(dict.fromkeys(wi))} if name in ORDERED_IDS else {"set": sorted(set(wi))})
         if obs["samples"] != ws:
             return f"{name} {_args_of(case)}: the entry point receives the samples {obs['samples']!r}, the options given mean {ws!r}"
         if obs["ids"] != wi:
@@ -489,7 +491,7 @@ def impl_lines(case):
         return {"error": f"entry point called {len(calls)} times, exit {r.exit_code} ({r.exception!r})"}
     ids = calls[0][idname]
     smp = calls[0]["samples"]
-    return {"ids": list(ids) if via == "ld" else sorted(ids), "samples": sorted(smp), "py": case["text"].splitlines()}
+    return {"ids": list(dict.fromkeys(ids)) if via == "ld" else sorted(ids), "samples": sorted(smp), "py": case["text"].splitlines()}
 
 
 def model_req_lines(case):
@@ -498,7 +500,7 @@ def model_req_lines(case):
 
 def model_obs_lines(case, resp):
     ls = resp["lines"]
-    return {"ids": list(ls) if case["via"] == "ld" else sorted(set(ls)), "samples": sorted(set(ls)), "py": resp["py"]}
+    return {"ids": list(dict.fromkeys(ls)) if case["via"] == "ld" else sorted(set(ls)), "samples": sorted(set(ls)), "py": resp["py"]}
 
 
 def oracle_lines(case, obs):
@@ -508,7 +510,7 @@ def oracle_lines(case, obs):
     ls = t.split("\n")
     if ls and ls[-1] == "":
         ls.pop()
-    want = ls if case["via"] == "ld" else sorted(set(ls))
+    want = list(dict.fromkeys(ls)) if case["via"] == "ld" else sorted(set(ls))
     if obs["ids"] != want:
         return f"{case['via']} --ids-file with the text {case['text']!r} hands over {obs['ids']!r}; one name per line is {want!r}, which is what repeating --id with these names hands over"
     if obs["samples"] != sorted(set(ls)):
